@@ -88,3 +88,12 @@ Fixpoint g_run (g : gate) (ops : list gop) : gate * list (list gout) :=
   end.
 
 Definition g_init (rows : list row) : gate := Gate rows 0 false None.
+
+(* configWatch / isConfigSnapshotNewerThan (rollback_mitigation.go l.88-112): the replica table is rebuilt from a
+   cluster map exactly when its (revEpoch, revID) is later than the one in use; a pair is (epoch, revision) *)
+Definition config_newer (old new : Z * Z) : bool :=
+  let '(oe, orv) := old in
+  let '(ne, nr) := new in
+  if (ne <? oe)%Z then false
+  else if (ne =? oe)%Z then (if (nr =? orv)%Z then false else if (nr <? orv)%Z then false else true)
+  else true.
